@@ -344,14 +344,17 @@ def cnt_read(ctx):
         pp = param_path(base)
         whole = bool(pp and pp[0] == 1 and not clo and not (set(iter_adaptors(src)) & LOSSY_ADAPTORS))
         i0 = drop_lv(r[2][1])
-        zero = (i0[0] == 'call' and call_name(i0) in ('default', 'zero', 'new') and not i0[2]) or (i0[0] == 'const' and i0[1] == 0)
+        zero = (i0[0] == 'call' and call_name(i0) in ('default', 'zero', 'new') and not i0[2]) or (i0[0] == 'const' and i0[1] == 0) \
+            or (is_call(i0, 'from') and i0[2] and drop_lv(i0[2][0])[0] == 'const' and drop_lv(i0[2][0])[1] == 0)
         cb_ = facts.cb(r[2][2][1])
         if whole and zero and cb_ is not None:
             cr = versionless(interp(facts, cb_).ret)
             is_vals = pp[1][-1:] == ('dots',) and kind == 'values'
             item = ('param', 3) if is_vals else ('field', ('param', 3), 'counter')
             ok = (cr[0] == 'binop' and cr[1] == 'Add' and {cr[2], cr[3]} == {('param', 2), item}) or \
-                 (is_call(cr, 'add') and len(cr[2]) == 2 and {cr[2][0], cr[2][1]} == {('param', 2), item})
+                 (is_call(cr, 'add') and len(cr[2]) == 2 and {versionless(strip_lossless(cr[2][0])), versionless(strip_lossless(cr[2][1]))} == {('param', 2), item})
+            if not ok:
+                why_fold = fmt(cr, 5)
     if not ok:
         # accumulator form: total = 0; for dot in self.inner.iter() { total += dot.counter }
         from .loops import accumulates, item_derived
@@ -483,6 +486,16 @@ def gc_delegate(ctx):
         rc = Reach(facts, body, Evaluator(facts))
         good = [bb for bb, c in it.calls.items() if is_call(c.term, name, self_adt='VClock') and len(c.args) == 2
                 and param_path(c.args[0].val) == (1, ('inner',)) and value_path(c.args[1].val) == want]
+        if name == 'merge' and not good:
+            # the clock merge written out: every dot of other.inner is applied to self.inner (what VClock::merge does)
+            from .loops import loop_of_block
+            for bb, c in it.calls.items():
+                if is_call(c.term, 'apply', self_adt='VClock') and len(c.args) == 2 and param_path(c.args[0].val) == (1, ('inner',)):
+                    src = as_item(c.args[1].val)
+                    lp = loop_of_block(it, bb)
+                    if src is not None and lp is not None and whole_iteration_over(src, 2, ('inner',)) and not iter_source(src)[2] \
+                            and not lp.early_exits() and lp.must(rc, [bb]):
+                        good.append(lp.head)
         ctx.check(bool(good) and rc.must_pass(good), name, body, 'inner.%s(%s)' % (name, 'other.inner' if want[1] else 'argument'),
                   'GCounter::%s does not delegate to inner.%s with the right operand on every path' % (name, name), props=props)
 
